@@ -74,15 +74,15 @@ def gen_cases(tier, seed):
             g["n_side"] = int(rng.integers(2, 6 if dim == 2 else 4))
         cases.append({"model": cm, "rep": REPS[j % 5], "grid": g, "level": int(j % 2) if dim == 2 else 0, "method": "INVERSION"})
     # infinite-variation copula chains (2-d, uniform grid: the central cell is (-h/2, h/2]^2): one or both margins with 1 < y < 2
-    for j in range(3 if not thorough else 24):
+    for j in range(6 if not thorough else 24):
         fams = [["CGMY", "CGMY"], ["CGMY", "VG"], ["HEM", "CGMY"], ["CGMY", "MERTON"]][j % 4]
         cm = W.gen_copula_model_spec(rng, dim=2, kind=["clayton", "clayton", "dependent", "independent"][j % 4], families=fams, exp=bool(j % 2))
         iv_done = False
         for ms in cm["margins"]:
             if ms["family"] == "CGMY" and (not iv_done or rng.random() < 0.5):
-                ms["params"]["y"] = W.r6(rng.uniform(1.05, 1.7))
+                ms["params"]["y"] = W.r6(rng.uniform(1.05, 1.7)) if j % 6 != 5 else 1.0      # y = 1: infinite variation with index exactly 1
                 ms["params"]["c"] = W.r6(rng.uniform(0.3, 3.0))     # a central-cell variance well above the code's own quadrature accuracy
-                ms["branch"] = "1<y<2"
+                ms["branch"] = W.cgmy_branch(ms["params"]["y"])
                 iv_done = True
             elif ms["family"] == "CGMY":
                 ms["params"]["y"] = W.r6(rng.uniform(0.05, 0.7))
@@ -352,7 +352,7 @@ def _nd_diffusion(R, cm, model, proc, grid, label, ctor, wit):
     var = D @ D.T
     sig2 = np.array([float(m.diffusion_coefficient()) ** 2 for m in model.models])
     R.hit("nd_diffusion_comparisons")
-    if bool(model.jump_of_finite_variation()):
+    if all(bool(m.jump_of_finite_variation()) for m in model.models):      # a process has finite variation iff each component has
         if not np.allclose(var, np.diag(sig2), rtol=1e-10, atol=1e-14):
             R.violation("nd-diffusion-finite-variation", f"{label}/{ctor}: finite variation but the variance matrix of the Brownian part is {var.tolist()}, "
                         f"diag(sigma^2) = {sig2.tolist()}", wit)
